@@ -2,10 +2,10 @@ package lint
 
 import (
 	"fmt"
-	"os"
 	"go/constant"
 	"go/token"
 	"go/types"
+	"os"
 	"sort"
 	"strings"
 
@@ -562,6 +562,34 @@ func (c *Ctx) akaEncodePaths(fn *ssa.Function) (header akaPath, body []akaPath, 
 	toksOf := func(ins ssa.Instruction) []akaTok {
 		if t, ok := tokOf1(ins); ok {
 			return []akaTok{t}
+		}
+		// out := []byte{b0, b1, ...} as the start of the output: the literal's octets are the first ones emitted
+		if sl, ok := ins.(*ssa.Slice); ok && isPlainByteSlice(sl.Type()) && sl.Low == nil && sl.High == nil {
+			if al, ok := sl.X.(*ssa.Alloc); ok && isByteArrayPtr(al.Type()) && isAppendBase(sl, 0) {
+				n, _ := arrayLen(al.Type())
+				pos := c.InstrPos(ins)
+				out := make([]akaTok, n)
+				for i := range out {
+					out[i] = akaTok{W: "1", To: "const:0", Pos: pos}
+				}
+				for _, ref := range *al.Referrers() {
+					ia, ok := ref.(*ssa.IndexAddr)
+					if !ok {
+						continue
+					}
+					k, ok := ia.Index.(*ssa.Const)
+					if !ok {
+						return []akaTok{{W: "v", To: "?", Pos: pos}}
+					}
+					idx, _ := constInt64(k.Value)
+					for _, r2 := range *ia.Referrers() {
+						if st, ok := r2.(*ssa.Store); ok && idx >= 0 && idx < n {
+							out[idx] = octetTok(st.Val, pos)
+						}
+					}
+				}
+				return out
+			}
 		}
 		call, ok := ins.(*ssa.Call)
 		if !ok {
@@ -1259,7 +1287,12 @@ func (c *Ctx) akaScalingRule(r *Report, prefix string, um *ssa.Function, setCase
 				}
 			}
 			if defReach[b] && len(which) == 0 {
+				// the default arm keeps attributes of every type this implementation does not interpret as
+				// received: the whole range of the length octet is in its domain
 				need = defWords
+				if need < 255 {
+					need = 255
+				}
 				which = append(which, "default")
 			}
 			sort.Strings(which)
@@ -1526,8 +1559,27 @@ func (c *Ctx) akaReferenceClasses(r *Report, rule string, um *ssa.Function, dcas
 	}
 }
 
-
 // isPlainByteSlice: []byte / []uint8 with an unnamed element type (not a list of a named octet type).
+// isAppendBase: v is (through φ-nodes) the slice some append extends.
+func isAppendBase(v ssa.Value, depth int) bool {
+	if depth > 3 || v.Referrers() == nil {
+		return false
+	}
+	for _, u := range *v.Referrers() {
+		switch x := u.(type) {
+		case *ssa.Call:
+			if ap := isAppendCall(x); ap != nil && ap.Call.Args[0] == v {
+				return true
+			}
+		case *ssa.Phi:
+			if isAppendBase(x, depth+1) {
+				return true
+			}
+		}
+	}
+	return false
+}
+
 func isPlainByteSlice(t types.Type) bool {
 	st, ok := t.Underlying().(*types.Slice)
 	if !ok {
@@ -1536,7 +1588,6 @@ func isPlainByteSlice(t types.Type) bool {
 	b, ok := st.Elem().(*types.Basic)
 	return ok && (b.Kind() == types.Uint8 || b.Kind() == types.Byte)
 }
-
 
 // condOnPath evaluates a comparison between constants and φ-nodes of constants along one concrete path
 // (the φ takes the edge of the block that precedes its own block on the path).
